@@ -107,7 +107,7 @@ def _judge(fails, tag, fam, lib_obj_fn, case, px, refs, Dx, Dy, kf=None):
 # ------------------------------------------------------------------------------------------ feature models
 def _pool_feat(tier):
     # (Dx, Dy, Dk, Rx)
-    base = [(1, 1, 1, 1), (1, 2, 2, 2), (2, 1, 2, 1), (2, 2, 3, 2), (1, 3, 3, 3), (2, 2, 1, 3), (3, 2, 4, 2), (4, 3, 5, 1), (1, 2, 5, 2), (2, 2, 17, 1), (3, 1, 20, 2)]
+    base = [(1, 1, 1, 1), (1, 2, 2, 2), (2, 1, 2, 1), (2, 2, 3, 2), (1, 3, 3, 3), (2, 2, 1, 3), (3, 2, 4, 2), (4, 3, 5, 1), (1, 2, 5, 2), (2, 2, 17, 1), (3, 1, 20, 2), (1, 7, 2, 1), (2, 9, 1, 2)]  # the last two: Dy > 2 (Dx + Dk)
     if tier == "thorough":
         base += [(2, 3, 2, 1), (1, 1, 3, 2), (2, 1, 1, 2), (1, 2, 1, 1), (3, 3, 2, 3), (4, 1, 4, 2), (2, 2, 5, 2), (5, 2, 3, 1)]
     return base
